@@ -95,59 +95,67 @@ func (c *Ctx) importKeyRule(rule string) {
 	r.Floor(rule, "import-table key uses", n, 5)
 }
 
-// perIterationStateRule: variables that a callback writes and that are consumed per loop iteration must be fresh per iteration.
+// perIterationStateRule: variables that a callback writes inside a per-interface loop must be fresh per iteration.
 func (c *Ctx) perIterationStateRule(rule, suffix, typ, name string) {
 	r := c.R
-	r.Rule(rule, "per-iteration state: in "+name+" every variable that a closure created inside the per-element loop writes to is allocated inside that loop (or reset there before the closure is created), so nothing computed for one element leaks into the next")
-	fn := c.MustMethod(rule, suffix, typ, name)
-	if fn == nil {
-		return
-	}
-	n := 0
-	for _, b := range fn.Blocks {
-		for _, in := range b.Instrs {
-			mc, ok := in.(*ssa.MakeClosure)
+	r.Rule(rule, "per-iteration state: in every loop over the parser's interface entries, a variable that a closure created inside that loop writes to is allocated inside the loop (or reset there before the closure is created), so nothing computed for one interface leaks into the next")
+	nLoops, n := 0, 0
+	for _, fn := range c.P.Funcs() {
+		p := pkgOf(fn)
+		if p == nil || p.Path() != mod+suffix {
+			continue
+		}
+		// loops over p.intfEntries: header compares the index with len(Parser.intfEntries)
+		heads := map[*ssa.BasicBlock]map[*ssa.BasicBlock]bool{}
+		for _, b := range fn.Blocks {
+			if len(b.Instrs) == 0 {
+				continue
+			}
+			iff, ok := b.Instrs[len(b.Instrs)-1].(*ssa.If)
 			if !ok {
 				continue
 			}
-			lp := loopOf(b)
-			if lp == nil {
-				continue
+			t := c.O.Of(iff.Cond)
+			if t.Kind == "binop" && t.Name == "<" && t.Args[1].IsCallTo("builtin:len") && t.Args[1].Args[0].IsField("parser.Parser.intfEntries") {
+				if lp := loopOf(b); lp != nil {
+					heads[b] = lp
+				}
 			}
-			// the outermost loop containing the closure: state must be fresh with respect to it
-			for {
-				var outer map[*ssa.BasicBlock]bool
-				for _, hb := range fn.Blocks {
-					if o := loopOf(hb); o != nil && len(o) > len(lp) && o[b] && (outer == nil || len(o) < len(outer)) {
-						outer = o
+		}
+		for _, lp := range heads {
+			nLoops++
+			for b := range lp {
+				for _, in := range b.Instrs {
+					mc, ok := in.(*ssa.MakeClosure)
+					if !ok {
+						continue
 					}
-				}
-				if outer == nil {
-					break
-				}
-				lp = outer
-			}
-			for _, bnd := range mc.Bindings {
-				al, ok := bnd.(*ssa.Alloc)
-				if !ok || !core.ClosureStores(mc, al) {
-					continue
-				}
-				n++
-				fresh := lp[al.Block()]
-				if !fresh && al.Referrers() != nil {
-					for _, rf := range *al.Referrers() {
-						if st, ok := rf.(*ssa.Store); ok && st.Addr == al && lp[st.Block()] && st.Block().Dominates(b) {
-							if _, isK := st.Val.(*ssa.Const); isK {
-								fresh = true
+					for _, bnd := range mc.Bindings {
+						al, ok := bnd.(*ssa.Alloc)
+						if !ok || !core.ClosureStores(mc, al) {
+							continue
+						}
+						n++
+						fresh := lp[al.Block()]
+						if !fresh && al.Referrers() != nil {
+							for _, rf := range *al.Referrers() {
+								if st, ok := rf.(*ssa.Store); ok && st.Addr == al && lp[st.Block()] && st.Block().Dominates(b) {
+									if _, isK := st.Val.(*ssa.Const); isK {
+										fresh = true
+									}
+								}
 							}
 						}
+						r.Check(rule, FnKey(fn)+":"+al.Comment, c.InstrPos(mc), fresh, "variable "+al.Comment+" is written by a callback inside the per-interface loop but lives across iterations without being reset: a value computed for one interface leaks into the next")
 					}
 				}
-				r.Check(rule, FnKey(fn)+":"+al.Comment, c.InstrPos(mc), fresh, "variable "+al.Comment+" is written by a callback inside the per-element loop but lives across iterations without being reset: a value computed for one interface leaks into the next")
 			}
 		}
 	}
-	r.Floor(rule, "callback-written variables in per-element loops", n, 2)
+	r.Floor(rule, "loops over the parser's interface entries", nLoops, 2)
+	r.Note(rule+"_callback_written_variables", n)
+	_ = typ
+	_ = name
 }
 
 // noNilVerdictRule: the per-field chain never answers (nil, nil) by a constant.
@@ -446,6 +454,12 @@ func (c *Ctx) sliceBoundsRule(rule string) {
 				d := c.ReachOf(sl)
 				lp := lenOfValue(sl.X, "")
 				okB := d.Implies(c.atLeast(lp, k+cc))
+				if !okB && k+cc <= 1 {
+					// field invariant: a field that is only ever assigned strings.Split(…) holds at least one element
+					if ft := c.O.Of(sl.X); ft.Kind == "field" && c.fieldOnlySplit(ft.Name) {
+						okB = true
+					}
+				}
 				if !okB {
 					// table: one symbol + reason
 					if why, has := sliceBoundExceptions[FnKey(fn)]; has && k == 1 && cc == 0 {
@@ -546,5 +560,29 @@ func (c *Ctx) stdoutInventoryRule(rule string) {
 		ok := g != nil && (s.Fn == g.fn || s.Fn.Parent() == g.fn)
 		r.Check(rule, FnKey(s.Fn)+":"+shortCallee(s.Callee), c.Pos(s.Pos()), ok, s.Callee+" writes to stdout outside the function that prints the generated code: with -print the text on stdout no longer equals the written file")
 	}
-	r.Floor(rule, "stdout writers reachable from main", n, 2)
+	r.Floor(rule, "stdout writers reachable from main", n, 1)
+}
+
+// fieldOnlySplit reports whether every store to the struct field (qualified name) in module code is a strings.Split result.
+func (c *Ctx) fieldOnlySplit(field string) bool {
+	n := 0
+	for _, fn := range c.P.Funcs() {
+		for _, b := range fn.Blocks {
+			for _, in := range b.Instrs {
+				st, ok := in.(*ssa.Store)
+				if !ok {
+					continue
+				}
+				fa, ok := st.Addr.(*ssa.FieldAddr)
+				if !ok || core.FieldName(fa.X.Type(), fa.Field) != field {
+					continue
+				}
+				n++
+				if !c.O.Of(st.Val).IsCallTo("strings.Split") {
+					return false
+				}
+			}
+		}
+	}
+	return n > 0
 }
